@@ -763,7 +763,12 @@ class TestCase(unittest.TestCase):
                 reraise(*exc_info)
         else:
             self.addCleanup(fixture.cleanUp)
-            self.addCleanup(gather_details, fixture.getDetails(), self.getDetails())
+            # Gather when the cleanup runs (before fixture.cleanUp, cleanups
+            # being LIFO) so that details attached to the fixture while the
+            # test was running are reported too.
+            self.addCleanup(
+                lambda: gather_details(fixture.getDetails(), self.getDetails())
+            )
             return fixture
 
     def setUp(self):
